@@ -1,4 +1,4 @@
-import ApolloModel.Proofs.ParserTree42
+import ApolloModel.Proofs.ParserTree44
 import ApolloModel.Proofs.ParserComplete30
 import ApolloModel.Proofs.ParserTreeDef13
 import ApolloModel.Proofs.ParserTreeInj2
@@ -1248,6 +1248,85 @@ theorem parsed_document_roundtrip_unconditional (rl : Nat) (src : Parse.Str) (ro
       rw [hD] at hn hi hf hdf hwfm
       obtain ⟨e1, root2, e2, e3⟩ := pipeline_print_parse_document_exact pre level x r (wfDefinitions_of_mem _ hwfm) hpre hn hi hf rl hdf
       exact ⟨e1, root2, e2, e3, by rw [e3]⟩
+
+/-- **parsed_document_roundtrip_leading_separator — the first liberty does not break the property.**  For EVERY source
+    accepted with zero errors at `rl`, with `its` the decomposition of the run and `D = Document::from_cst` of the tree: if
+    every root operation type of every schema definition / extension has its named type (`DocItem.named`; leading `&` / `|`
+    separators are allowed anywhere), then `D` is non-empty and well-formed and, for every configuration, serializing `D`
+    and parsing again AT THE SAME `rl` gives NO errors and an EQUAL AST, and the reprint is BYTE-IDENTICAL.  (`from_cst`
+    does not represent the leading separator: `D` is the strict reading of the items without it, `LooseDef.unlead`; the
+    exact budget and the well-formedness facts do not see the separator, `looseFitX_unlead`, `wf_unlead`; the item of the
+    exact soundness calculus on the same tokens is identified through the reference parser, which reads a leading
+    separator — builderA's `loose_parse`, split into `loose_parse_named` / `loose_parse_nameless`.)  With
+    `parsed_document_roundtrip_unconditional` the only accepted sources for which the property is not proved are those
+    with a root operation type WITHOUT its named type — the recorded C05 finding, see
+    `parsed_document_roundtrip_fails_on_finding`. -/
+theorem parsed_document_roundtrip_leading_separator (rl : Nat) (src : Parse.Str) (root : Elem)
+    (h : (parse .document none rl src).outcome = .tree root) (herr : (parse .document none rl src).errors = []) :
+    ∃ its : List Parse.DocItem, sigToks (Apollo.Lex.lex none src) = some (Parse.docToks its) ∧
+      (FromCst.fromCst root).1 = its.map Parse.DocItem.conv ∧
+      ((∀ i ∈ its, i.named) →
+        (FromCst.fromCst root).1 ≠ [] ∧ wfDefinitions (FromCst.fromCst root).1 = true ∧
+        ∀ (pre : Option Ast.Str) (level : Nat), (∀ p, pre = some p → p.all Apollo.Strs.isWs = true) →
+          (parse .document none rl (serializeDocument pre level (FromCst.fromCst root).1).out).errors = [] ∧
+          ∃ root2, (parse .document none rl (serializeDocument pre level (FromCst.fromCst root).1).out).outcome = .tree root2 ∧
+            (FromCst.fromCst root2).1 = (FromCst.fromCst root).1 ∧
+            (serializeDocument pre level (FromCst.fromCst root2).1).out =
+              (serializeDocument pre level (FromCst.fromCst root).1).out) := by
+  obtain ⟨hclean, ts, e, its, h1, h2, h3, h4, h6, h7⟩ := Parse.Exact.parseDocument_agrees_named rl src root h herr
+  refine ⟨its, (Parse.sigToks_src_iff src _).mpr ⟨hclean, ts, e, h1, h2, h4⟩, h6, ?_⟩
+  intro hnamed
+  obtain ⟨items, a, dd, c, hdf, hsub⟩ := h7 hnamed
+  have hsrc : ∀ t ∈ Parse.docToks its, Parse.TokOkA t := Parse.tokOkA_of_src src hclean ts e h1 (Parse.docToks its) h4
+  have hok : ∀ t ∈ itemsToks items, Parse.TokOkA t := fun t ht => hsrc t (hsub t ht)
+  rw [dd]
+  have hwfm : ∀ x ∈ items.map (·.2), wfDefinition x = true := by
+    intro x hx
+    obtain ⟨i, hi, rfl⟩ := List.mem_map.mp hx
+    exact c i hi
+  refine ⟨by simpa using a, wfDefinitions_of_mem _ hwfm, ?_⟩
+  intro pre level hpre
+  obtain ⟨hn, hi, hf⟩ := Parse.segs_hyps_of_toks pre level (items.map (·.2))
+    (Parse.tokOkA_printed (outputEmptyAtStart pre level) items hok)
+  cases hD : items.map (·.2) with
+  | nil => exact absurd hD (by simpa using a)
+  | cons x r =>
+    rw [hD] at hn hi hf hdf hwfm
+    obtain ⟨e1, root2, e2, e3⟩ := pipeline_print_parse_document_exact pre level x r (wfDefinitions_of_mem _ hwfm) hpre hn hi hf rl hdf
+    exact ⟨e1, root2, e2, e3, by rw [e3]⟩
+
+/-- the AST the pipeline model returns for a source (`Document::from_cst` of the tree of `Parser::parse`, recursion limit 500) -/
+def astOfSource (src : String) : Document :=
+  (FromCst.fromCst (Parse.rootOf (Apollo.Parse.parse .document none 500 src.toList))).1
+
+/-- **parsed_document_roundtrip_fails_on_finding — the C08-visible consequence of the recorded C05 finding**
+    (kernel-evaluated on the model).  `schema { query: }` is accepted with zero errors (`root_operation_type_definition`
+    calls `named_type`, which silently does nothing when no Name follows); `Document::from_cst` drops the root operation
+    without a type, so the AST is a schema definition WITHOUT root operations; the serializer prints `schema {}`; and
+    parsing that text reports an error.  "Every document that parses without errors re-parses without errors after
+    serialization" is FALSE for this source. -/
+theorem parsed_document_roundtrip_fails_on_finding :
+    (Apollo.Parse.parse .document none 500 "schema { query: }".toList).errors = [] ∧
+    (serializeDocument none 0 (astOfSource "schema { query: }")).out = "schema {}".toList ∧
+    (Apollo.Parse.parse .document none 500 (serializeDocument none 0 (astOfSource "schema { query: }")).out).errors ≠ [] := by
+  decide +kernel
+
+/-- what happens on the other nameless-root inputs (kernel-evaluated): `from_cst` drops the nameless root; when a root
+    with its type remains (`schema { query: Q mutation: }` → `schema { query: Q }`) or the definition is an extension with
+    a directive (`extend schema @d { query: }` → `extend schema @d`), the AST `D` obtained is NOT the one the source
+    spells, but `D` itself is a fixed point: printing `D` parses with zero errors, to the same AST (equal dumps), and the
+    reprint is byte-identical. -/
+theorem nameless_root_fixed_points :
+    (∀ src ∈ ["schema { query: Q mutation: }", "extend schema @d { query: }"],
+      (Apollo.Parse.parse .document none 500 src.toList).errors = [] ∧
+      (Apollo.Parse.parse .document none 500 (serializeDocument none 0 (astOfSource src)).out).errors = [] ∧
+      Ast.dDocument (FromCst.fromCst (Parse.rootOf (Apollo.Parse.parse .document none 500
+          (serializeDocument none 0 (astOfSource src)).out))).1 = Ast.dDocument (astOfSource src) ∧
+      (serializeDocument none 0 (FromCst.fromCst (Parse.rootOf (Apollo.Parse.parse .document none 500
+          (serializeDocument none 0 (astOfSource src)).out))).1).out = (serializeDocument none 0 (astOfSource src)).out) ∧
+    (serializeDocument none 0 (astOfSource "schema { query: Q mutation: }")).out = "schema { query: Q }".toList ∧
+    (serializeDocument none 0 (astOfSource "extend schema @d { query: }")).out = "extend schema @d".toList := by
+  decide +kernel
 
 end PropertyStatement
 
